@@ -588,3 +588,46 @@ func TestC06(t *testing.T) {
 		subC06.Check(rt, c)
 	})
 }
+
+// fuzzFrameCase turns fuzzer bytes into one well-framed frame addressed to a typed decoder: the
+// header decides which (sel picks among the typed kinds when the header names none), the length
+// field is repaired.
+func fuzzFrameCase(data []byte, sel uint8) (c06Accept, bool) {
+	if len(data) < 4 || len(data) > 4096 {
+		return c06Accept{}, false
+	}
+	b := append([]byte(nil), data[:len(data)/4*4]...)
+	b[0] = b[0]&0x3F | 0x80
+	w := len(b)/4 - 1
+	b[2], b[3] = byte(w>>8), byte(w)
+	k := m.Dispatch(b[1], b[0]&0x1f, gen.PionDialect)
+	if k == m.KRAW || k == "" {
+		k = m.TypedKinds[int(sel)%len(m.TypedKinds)]
+		pt, fm, hasFmt := m.PTFMT(k, gen.PionDialect)
+		b[1] = pt
+		if hasFmt {
+			b[0] = b[0]&0xE0 | fm
+		}
+	}
+	return c06Accept{Kind: k, Muts: []string{"fuzz"}, Frame: b}, true
+}
+
+func fuzzFrameSeeds(f *testing.F) {
+	g := rapid.Custom(func(t *rapid.T) []byte { return genC06Accept(t).Frame })
+	for i := 0; i < 300; i++ {
+		if b := g.Example(i); len(b) <= 1024 {
+			f.Add(b, uint8(i))
+		}
+	}
+}
+
+// FuzzC06Frame is the coverage-guided version of the acceptance differential (thorough tier):
+// what the library accepts must be well-formed.
+func FuzzC06Frame(f *testing.F) {
+	fuzzFrameSeeds(f)
+	f.Fuzz(func(t *testing.T, data []byte, sel uint8) {
+		if c, ok := fuzzFrameCase(data, sel); ok {
+			subC06Accept.Check(t, c)
+		}
+	})
+}
